@@ -159,6 +159,61 @@ fn issuer_history(ctx: &Ctx, case: u64, l: &mut Local) {
                 continue;
             }
         }
+        // ---- unusual but legitimate calls. (a) the user claims carry their own clear-text `cnf`
+        // AND a holder key is passed: whatever that call returns is not judged, but nothing of it
+        // (neither the key nor the user's cnf) may show up in a LATER result. (b) claims that are
+        // empty / hold nothing but iss, exp: the result has no disclosure at all.
+        if r.chance(10) {
+            use sd_jwt_rs::ClaimsForSelectiveDisclosureStrategy as S;
+            let fmt = *r.pick(&[Fmt::Compact, Fmt::Json]);
+            let kind = r.below(4);
+            let (claims, holder, decoys) = match kind {
+                0 | 1 => (
+                    json!({"iss": "https://issuer.example/A", "exp": 4_000_000_000u64, "cnf": {"jwk": {"kty": "oct", "k": format!("#{k}.998;")}, "note": format!("#{k}.997;")}, format!("c#{k}.1;"): "v"}),
+                    Some((*r.pick(&[Alg::ES256, Alg::EdDSA]), r.usize(2))),
+                    r.chance(50),
+                ),
+                2 => (json!({}), None, false),
+                _ => (json!({"iss": "https://issuer.example/A", "exp": 4_000_000_000u64, "iat": 1_700_000_000u64}), None, false),
+            };
+            let nm = format!("$.c#{k}.1;");
+            let strategy = match (kind, r.below(3)) {
+                (0, _) => S::NoSDClaims,
+                (1, _) => S::Custom(vec![nm.as_str()]),
+                (_, 0) => S::AllLevels,
+                (_, 1) => S::TopLevel,
+                _ => S::NoSDClaims,
+            };
+            let out = api::issue_raw(&mut issuer, &claims, strategy, holder, decoys, fmt);
+            l.count(&format!("issuer.calls.unusual-{kind}"));
+            match &out {
+                p @ Outcome::Panic(..) => l.violate(viol(case, "panic", "unusual issuer call", p.panic_signature().unwrap(), json!({"claims": claims, "history": api::history()}))),
+                Outcome::Ok(text) if kind >= 2 => {
+                    l.count("issuer.calls.ok");
+                    match Parts::parse(fmt, text) {
+                        Ok(parts) => {
+                            let texts = texts_of(&parts);
+                            if !parts.disclosures.is_empty() {
+                                l.violate(viol(case, "earlier-disclosure-or-digest-reappears", &format!("call#{k}"), format!("{} disclosure(s) attached to a credential whose claims have nothing to hide", parts.disclosures.len()), json!({"claims": claims, "earlier_calls": summary, "disclosures": texts[1..]})));
+                            } else if let Some(tag) = foreign_tags(&texts, k) {
+                                l.violate(viol(case, "foreign-tag-in-result", &format!("call#{k}"), "a claim tag of another call occurs in this result".into(), json!({"claims": claims, "tag": tag, "earlier_calls": summary})));
+                            } else if parts.payload().ok().map(|p| p.get("cnf").is_some()).unwrap_or(false) {
+                                l.violate(viol(case, "stale-holder-key", &format!("call#{k}"), "cnf present although this call bound no holder key".into(), json!({"claims": claims, "earlier_calls": summary})));
+                            }
+                        }
+                        Err(e) => l.violate(viol(case, "reused-issuer-result-unusable", &format!("call#{k}"), format!("undecodable result: {e}"), json!({"claims": claims, "earlier_calls": summary}))),
+                    }
+                }
+                _ => {}
+            }
+            summary.push(json!({"call": k, "kind": format!("unusual-{kind}"), "result": out.class()}));
+            if prev.is_some() {
+                nontrivial = true;
+            }
+            prev = Some((fmt, decoys, holder, out.is_ok()));
+            fp = crate::rng::mix(fp ^ 0x0DD ^ kind);
+            continue;
+        }
         // ---- a regular call with independently drawn arguments
         let profile = *r.pick(&PROFILES);
         let skind = *r.pick(&STRAT_KINDS);
